@@ -185,6 +185,36 @@ func runC12x(p *Prog, r *Report, openOnly bool) {
 		expect: func(x *Explorer, st *State, ret *ssa.Return) (pairDelta, [4]bool, bool) {
 			return pairDelta{0, 0, 0, 0}, [4]bool{true, true, false, false}, true
 		}})
+	// the function Serve installs as the pool's WorkerFunc: gives back the slot and the open unit the accept loop took
+	{
+		var worker *ssa.Function
+		for _, b := range fServe.Blocks {
+			for _, in := range b.Instrs {
+				st, ok := in.(*ssa.Store)
+				if !ok {
+					continue
+				}
+				if _, fv := fieldOfAddr(st.Addr); fv == nil || fv.Name() != "WorkerFunc" {
+					continue
+				}
+				if mc, ok := stripConv(st.Val).(*ssa.MakeClosure); ok {
+					if bf, ok := mc.Fn.(*ssa.Function); ok {
+						if f := p.Func("(*Server)." + strings.TrimSuffix(bf.Name(), "$bound")); f != nil {
+							worker = f
+						}
+					}
+				}
+			}
+		}
+		if worker == nil {
+			r.Undecided("E1", "Serve: the method installed as workerPool.WorkerFunc", "not found")
+		} else {
+			run(&pairSpec{what: worker.Name() + " (the worker function of Serve) gives back the concurrency slot and the open unit of its connection at every return", fn: worker,
+				expect: func(x *Explorer, st *State, ret *ssa.Return) (pairDelta, [4]bool, bool) {
+					return pairDelta{-1, -1, 0, 0}, [4]bool{true, true, false, false}, true
+				}})
+		}
+	}
 	// Serve: listener unit balanced at return; per accepted connection: hand-off or give back
 	{
 		var wpCall *ssa.Call
@@ -198,33 +228,47 @@ func runC12x(p *Prog, r *Report, openOnly bool) {
 		} else {
 			header := loopHeaderOf(wpCall.Block())
 			nback, badBack, nreject := 0, 0, 0
-			var wit []string
+			nhand, badHand := 0, 0
+			var wit, witHand []string
 			sp := &pairSpec{what: "Serve keeps its listener unit of Server.open balanced", fn: fServe,
 				branch: func(x *Explorer, st *State, cond ssa.Value, taken bool, from *ssa.BasicBlock) {
 					pos, v := stripNot(cond)
 					if v == ssa.Value(wpCall) {
 						if taken == pos {
 							st.N[tOpen]-- // ownership of the unit moves to the worker (serveConn gives it back)
+							st.N[tConc]-- // and so does the concurrency slot the accept loop took
 						} else {
 							nreject++
 						}
 					}
+					if c, ok := v.(*ssa.Call); ok && isCallTo(c, fTry) && taken == pos {
+						st.N[tConc]++
+					}
 				},
 				expect: func(x *Explorer, st *State, ret *ssa.Return) (pairDelta, [4]bool, bool) {
-					return pairDelta{0, 0, 0, 0}, [4]bool{false, true, false, true}, true
+					return pairDelta{0, 0, 0, 0}, [4]bool{true, true, false, true}, true
 				}}
 			sp.instr = func(x *Explorer, st *State, in ssa.Instruction) {}
 			sp.rule, sp.tokens, sp.effect, sp.min, sp.max = "E1", names, base, -1, 3
 			// back-edge obligation through the Edge hook: wrap runPairing's explorer by checking in instr at loop header entry
 			first := true
 			sp.instr = func(x *Explorer, st *State, in ssa.Instruction) {
+				if in == ssa.Instruction(wpCall) {
+					nhand++
+					if st.N[tConc] != 1 {
+						badHand++
+						if witHand == nil {
+							witHand = x.Path(st)
+						}
+					}
+				}
 				if header != nil && in.Block() == header && in == firstNonPhi(header) {
 					if first {
 						first = false
 					}
 					// every arrival at the loop header holds exactly the listener unit
 					nback++
-					if st.N[tOpen] != 1 || st.N[3] != 1 {
+					if st.N[tOpen] != 1 || st.N[3] != 1 || st.N[tConc] != 0 {
 						badBack++
 						if wit == nil {
 							wit = x.Path(st)
@@ -235,7 +279,12 @@ func runC12x(p *Prog, r *Report, openOnly bool) {
 			res := runPairing(p, sp)
 			res.report(p, r, sp)
 			r.Check("E1", "Serve: every accepted connection's open unit is handed to a worker or given back before the next accept", badBack == 0 && nback >= 1 && nreject >= 1, p.Pos(wpCall.Pos()),
-				fmt.Sprintf("%d of %d explored arrivals at the accept loop header hold a Server.open count different from the listener's own unit: a rejected connection's unit is never given back (Shutdown would wait forever) or is given back twice", badBack, nback), wit...)
+				fmt.Sprintf("%d of %d explored arrivals at the accept loop header hold a Server.open count different from the listener's own unit (or still hold a concurrency slot): a rejected connection's unit is never given back (Shutdown would wait forever) or is given back twice", badBack, nback), wit...)
+			// R-admit: Concurrency bounds the Server, not one worker pool. The accept loop hands a connection to its pool
+			// only while it holds a slot of the shared gauge (tryAcquireConcurrency returned true on this path) - the
+			// same gauge ServeConn and every other Serve call of the Server take their slots from.
+			r.Check("R-admit", "Serve: a connection is handed to the worker pool only on paths that hold a slot of the Server-wide concurrency gauge", badHand == 0 && nhand >= 1, p.Pos(wpCall.Pos()),
+				fmt.Sprintf("%d of %d explored arrivals at workerPool.Serve do not hold exactly one unit taken through tryAcquireConcurrency: admission is then bounded per worker pool only, and two Serve calls (two listeners) or Serve plus ServeConn together serve more than Concurrency connections at once", badHand, nhand), witHand...)
 		}
 	}
 	// wrapPerIPConn
